@@ -24,7 +24,7 @@ comparison (optional members absent or null, floats as f64, ints as i64); (2) th
 values equal (derived PartialEq) to the same JSON read into the generated types; (3) the reply / declared error on \
 the wire equals the scripted JSON and the client returns the matching reply struct / ErrorKind variant; (4) raw \
 requests with a required member dropped or a leaf retyped to a JSON type its IDL type cannot accept are answered \
-with org.varlink.service.InvalidParameter. Non-trivial: a value tuple containing a set optional, a non-empty \
+with org.varlink.service.InvalidParameter. Two hand-written definitions (an error named like a standard error, map of nullable values, objects with null members) are part of every run. Non-trivial: a value tuple containing a set optional, a non-empty \
 collection, an enum or a keyword-named field; distinct by (definition, method, mode, value hash).";
 
 // ------------------------------------------------------------------------------------------------
